@@ -733,10 +733,12 @@ def c13_variants(tier, rng):
     v1 = dict(base, datas=[f"text one {n}", f"text two {n}", f"text three {n}"], quick=(tier == "quick"))
     v2 = dict(base, datas=[b"\x00\x01" + bytes([n % 256]), b"\x00\x02", b"\xff\x03"], suffix_arg=".png", quick=(tier == "quick"),
               s4="none")
+    # the shortest suffix the API accepts: a lone dot (pathlib reports no suffix for "<hash>-new.")
+    v3 = dict(base, datas=[f"dot one {n}", f"dot two {n}", f"dot three {n}"], suffix_arg=".", quick=True, s4="none")
     if tier == "quick":
-        return [v1, v2]
+        return [v1, v2, v3]
     return [
-        v1, v2,
+        v1, v2, v3,
         dict(base, datas=["a", "b", "c"], hash_length=64),
         dict(base, datas=["long " * 50, "x\ny\n", "äö unicode"], hash_length=8, storage_dir="snaps"),
         dict(base, datas=[b"bin1", b"bin2", b"bin3"], storage_dir="deep/store"),
